@@ -9,27 +9,24 @@ harnesses).  For ALL byte strings, both endiannesses, all versions:
 * `read_gcda` on any bytes, `count_on_tree`/`propagate_counts` on ANY well-formed shape (no
   spanning-tree assumption – a corrupt file has arbitrary tree flags): the only crash is the known
   finding C14-gcno-counter-overflow (u64 sums), and the depth fuel `propFuel` is never exhausted;
-* `finalize`: every index is in range (`idxBlock`, `idxArc`, `idxFunc`, `idxList`, `noArcs`,
-  `str` are unreachable everywhere);
+* `finalize` with its line counts and the cycle search (`look_for_circuit`, a variant of Johnson's
+  algorithm): every index is in range, `get_cycle_count` never underflows (no arc is twice on the
+  path) and the depth fuel `circuitFuel` suffices (no block is twice on the stack) – from the stack
+  invariant "a block on the recursion stack stays in `blocked`" (Lemmas/GcnoSafeJohnson.lean);
+  hence `Gcno::compute` on ANY bytes is a value, an error or the overflow crash, and never runs out
+  of fuel (`C14_gcno_bytes_never_crash`, `C14_gcno_bytes_terminate`);
 * a truncated gcda yields an error, the overflow crash, or exactly the state after a prefix of the
   complete records of the whole file; the record stream of the cut file never holds a counter
   that is not in the file (`TruncOf`);
-* sizes: the record streams are linear in the input, except for the number of blocks announced by
-  BLOCKS records of format ≥ 8 (each bounded by the bytes left, but a file may repeat the record:
-  see `C14_gcno_blocks_not_linear` – finding C14-gcno-repeated-blocks-alloc).
+* sizes: the record streams are linear in the input, and so are the block tables: all functions
+  of an accepted file together have at most as many blocks as the file has bytes
+  (`C14_gcno_blocks_linear`; finding C14-gcno-repeated-blocks-alloc, fixed in /repo ed627d5).
 
-NOT proved (named here, tied and measured only): for the cycle search of `get_cycles_count`
-(`lookForCircuit`, a variant of Johnson's algorithm) two outcomes are not excluded by a theorem:
-`crash underflow` in `get_cycle_count` (needs: no arc twice on the path) and exhaustion of
-`circuitFuel` (needs: no block twice on the stack).  Both follow from the stack invariant of
-Johnson's algorithm ("a block on the stack stays blocked"), which is not proved for this variant;
-an exhaustive search over all digraphs with ≤ 4 blocks × all block subsets and 300 000 random
-multigraphs with ≤ 7 blocks found no violation.  Hence `C14_gcno_bytes_crash_sites_partial`
-allows `underflow` next to `overflow`, and there is no `computeBytes … ≠ diverge` theorem; the
-full statements hold for everything before `finalize` (`C14_gcno_until_stop`).
+What a theorem about the model cannot say (measured by the correspondence run): the time of the
+cycle search, which is exponential in the worst case (elementary circuits of a line's blocks).
 -/
 import GrcovModel.Lemmas.GcnoSafeTop
-import GrcovModel.Lemmas.GcnoSafeSize
+import GrcovModel.Lemmas.GcnoSafeBlocks
 namespace Grcov.Props.C14
 open Grcov Grcov.Gcno Grcov.Gcno.Outcome
 
@@ -86,19 +83,28 @@ theorem C14_gcno_until_stop (gcno : List Nat) (gcdas : List (List Nat)) :
   ⟨fun s h => Classical.byContradiction fun hs => (readAndStop_sat gcno gcdas).ne_crash hs h,
    (readAndStop_sat gcno gcdas).ne_diverge⟩
 
-/-- `finalize` on well-formed functions: no index is ever out of range; a crash is the overflow
-finding or `underflow` of the cycle search (not excluded, see the head of this file). -/
-theorem C14_gcno_finalize_sites_partial (branch : Bool) (fs : List (Func × Cnt))
-    (h : ∀ fc ∈ fs, fc.1.WF) (s : Site) (hc : finalize branch fs = .crash s) :
-    s = .overflow ∨ s = .underflow :=
-  Classical.byContradiction fun hs => (finalize_sat branch h).ne_crash hs hc
+/-- `finalize` (line counts, cycle search, branches) on well-formed functions: a value or the
+overflow crash; no index out of range, no underflow in the cycle search, no fuel exhausted. -/
+theorem C14_gcno_finalize_crash_only_overflow (branch : Bool) (fs : List (Func × Cnt))
+    (h : ∀ fc ∈ fs, fc.1.WF) :
+    (∀ s, finalize branch fs = .crash s → s = .overflow) ∧ finalize branch fs ≠ .diverge :=
+  ⟨fun s hc => Classical.byContradiction fun hs => (finalize_ov branch h).ne_crash hs hc,
+   (finalize_ov branch h).ne_diverge⟩
 
-/-- **`Gcno::compute` on all byte strings** (`computeBytes` is by definition the part before
-`finalize` followed by `finalize`): no crash at an index, an `unwrap`, a string or an empty arc
-list; what remains is the overflow finding and – not excluded – `underflow` in the cycle search. -/
-theorem C14_gcno_bytes_crash_sites_partial (gcno : List Nat) (gcdas : List (List Nat)) (branch : Bool)
-    (s : Site) (hc : computeBytes gcno gcdas branch = .crash s) : s = .overflow ∨ s = .underflow :=
+/-- **`Gcno::compute` on all byte strings never crashes except by the known overflow**: for every
+gcno buffer, every list of gcda buffers and either branch setting, a crash of `computeBytes` is the
+u64 overflow of finding C14-gcno-counter-overflow – never an index, an `unwrap`, a string, an empty
+arc list or an underflow. -/
+theorem C14_gcno_bytes_never_crash (gcno : List Nat) (gcdas : List (List Nat)) (branch : Bool)
+    (s : Site) (hc : computeBytes gcno gcdas branch = .crash s) : s = .overflow :=
   Classical.byContradiction fun hs => (computeBytes_sat gcno gcdas branch).ne_crash hs hc
+
+/-- **`Gcno::compute` on all byte strings terminates**: the fuels of the model (`propFuel` for
+`propagate_counts`, `circuitFuel` for `look_for_circuit`, the buffer length for the record loops)
+are never exhausted – the recursions of the real code are bounded by the number of blocks. -/
+theorem C14_gcno_bytes_terminate (gcno : List Nat) (gcdas : List (List Nat)) (branch : Bool) :
+    computeBytes gcno gcdas branch ≠ .diverge :=
+  (computeBytes_sat gcno gcdas branch).ne_diverge
 
 theorem C14_gcno_compute_split (gcno : List Nat) (gcdas : List (List Nat)) (branch : Bool) :
     computeBytes gcno gcdas branch = (readAndStop gcno gcdas).bind (finalize branch) :=
@@ -124,7 +130,8 @@ that record's counters; and the truncated stream is a prefix of the complete rec
 carries the failure marker. -/
 theorem C14_truncated_gcda_counters (t f : List DRec) (h : TruncOf t f) :
     ((∃ k, t = f.take k) ∨ DRec.fail .short ∈ t) ∧
-    ∀ i len vs', t[i]? = some (.arcs len vs') → ∃ vs, f[i]? = some (.arcs len vs) ∧ vs' <+: vs :=
+    ∀ (i len : Nat) (vs' : List Nat), t[i]? = some (DRec.arcs len vs') →
+      ∃ vs, f[i]? = some (DRec.arcs len vs) ∧ vs' <+: vs :=
   ⟨h.take_or_fail, h.counters⟩
 
 /-- **A truncated gcda (the artifact a killed test process leaves behind)** against well-formed
@@ -164,40 +171,52 @@ theorem C14_gcda_records_linear (le : Bool) (version fuel : Nat) (hf : Bool) (bs
 /-- The gcno record stream without the block tables is linear in the input: the number of
 records plus the bytes of all names, the number of arcs and of line items is at most the
 number of bytes; and every BLOCKS record announces at most as many blocks as there are bytes. -/
-theorem C14_gcno_records_linear (le : Bool) (version fuel : Nat) (hf : Bool) (bs : List Nat) :
-    ((parseRecs le version fuel hf bs).map NRec.size).sum ≤ bs.length ∧
-    ∀ n, NRec.blocks n ∈ parseRecs le version fuel hf bs → n ≤ bs.length :=
-  ⟨parseRecs_size le version fuel hf bs, fun n h => parseRecs_blocks le version fuel hf bs n h⟩
+theorem C14_gcno_records_linear (le : Bool) (version blen fuel total : Nat) (hf : Bool)
+    (bs : List Nat) :
+    ((parseRecs le version blen fuel total hf bs).map NRec.size).sum ≤ bs.length ∧
+    ∀ n, NRec.blocks n ∈ parseRecs le version blen fuel total hf bs → n ≤ bs.length :=
+  ⟨parseRecs_size le version blen fuel total hf bs,
+   fun n h => parseRecs_blocks le version blen fuel total hf bs n h⟩
 
-/-- **Finding C14-gcno-repeated-blocks-alloc**: the block table is NOT linear in the input. A
-152-byte gcno (format 12, one function, six BLOCKS records each announcing as many blocks as bytes
-are left) builds a function with 204 blocks; with `k` such records the table has about `6 k²`
-blocks for `12 k` bytes. -/
-theorem C14_gcno_blocks_not_linear :
-    ¬ ∀ (bs : List Nat) (g : Notes),
-        ((readGcno bs).bind fun x => build x.1 x.2.1 x.2.2) = .ok g →
-        ∀ f ∈ g.funcs, f.blocks.length ≤ bs.length := by
-  intro h
-  have := h blocksWitness _ blocksWitness_builds _ (List.mem_singleton.2 rfl)
-  exact absurd this (by decide)
+/-- **The block tables are linear in the input** (since the fix of finding
+C14-gcno-repeated-blocks-alloc, /repo ed627d5: `read_functions` keeps the running total of the
+blocks appended by BLOCKS records and rejects the file once it exceeds the buffer length): whenever
+`read_gcno` accepts a byte string, all functions together have at most as many blocks as the file
+has bytes. With `C14_gcno_records_linear` the whole shape is linear in the input. -/
+theorem C14_gcno_blocks_linear (bs : List Nat) (g : Notes) (h : readBuild bs = .ok g) :
+    (g.funcs.map fun f => f.blocks.length).sum ≤ bs.length :=
+  readBuild_totalBlocks h
 
-/-! ### non-vacuity -/
+/-- **The known finding C14-gcno-counter-overflow is reachable**: two runs whose gcda carry the
+counter 2^64-1 for the same arc make `Gcno::compute` crash by overflow (a panic in a debug build):
+`overflow` cannot be removed from the statements above. -/
+theorem C14_gcno_counter_overflow_reachable :
+    ∃ gcno gcdas, computeBytes gcno gcdas true = .crash .overflow :=
+  ⟨tinyGcno, [tinyGcda 255 255, tinyGcda 255 255],
+   Outcome.eq_crash_of (by decide +kernel)⟩
 
-/-- a valid little gcno (format 4.2, one function, two blocks, one counted arc) and its gcda: the
-hypotheses of the theorems above are met by real inputs, and the overflow crash is reachable
-(two runs with a counter of 2^64-1): `overflow` cannot be removed from the statements -/
+/-! ### non-vacuity: closed files (`tinyGcno`: format 4.2, one function, two blocks, one counted
+arc; `tinyGcda lo hi`: its 48-byte gcda, the counter in bytes 36..44) -/
+
+/-- real inputs meet the hypotheses: the pair is read and computed, the notes are built -/
 example : (computeBytes tinyGcno [tinyGcda 1 0] true).isOk = true := by decide +kernel
-example : computeBytes tinyGcno [tinyGcda 255 255, tinyGcda 255 255] true = .crash .overflow := by
-  decide +kernel
-example : ∃ g, ((readGcno tinyGcno).bind fun x => build x.1 x.2.1 x.2.2) = .ok g ∧ g.funcs.length = 1 :=
-  ⟨_, tinyGcno_builds, rfl⟩
+example : (computeBytes tinyGcno [tinyGcda 1 0, tinyGcda 2 0] true).isOk = true := by decide +kernel
+example : builtBlocks tinyGcno = some [2] := by decide +kernel
+example : (readAndStop tinyGcno [tinyGcda 1 0]).isOk = true := by decide +kernel
+/-- a line spread over two blocks with a loop: its count goes through `get_line_count` and the
+cycle search (one entry + three rounds of the self loop) -/
+example : lineOf (computeBytes loopGcno [loopGcda] true) 5 = some 4 := by decide +kernel
+example : lineOf (computeBytes loopGcno [loopGcda] true) 6 = some 4 := by decide +kernel
 /-- the gcda cut in the middle of its counter: an error -/
-example : ∃ g, ((readGcno tinyGcno).bind fun x => build x.1 x.2.1 x.2.2) = .ok g ∧
-    addGcdaBytes g State.zero ((tinyGcda 1 0).take 30) = .err .short :=
-  ⟨_, tinyGcno_builds, by decide +kernel⟩
-/-- the gcda cut after its function record: accepted, with the records read so far -/
-example : ∃ g, ((readGcno tinyGcno).bind fun x => build x.1 x.2.1 x.2.2) = .ok g ∧
-    (addGcdaBytes g State.zero ((tinyGcda 1 0).take 23)).isOk = true :=
-  ⟨_, tinyGcno_builds, by decide +kernel⟩
+example : (addTo tinyGcno ((tinyGcda 1 0).take 40)).errKind? = some .short := by decide +kernel
+/-- the gcda cut after its function record, two bytes into the next tag: accepted, with the
+records read so far (the loop stops silently) -/
+example : (addTo tinyGcno ((tinyGcda 1 0).take 30)).isOk = true := by decide +kernel
+/-- the gcda cut exactly at the record boundary: `skip!` is strict, an error -/
+example : (addTo tinyGcno ((tinyGcda 1 0).take 28)).errKind? = some .short := by decide +kernel
+/-- the former witness of the block-table finding (152 bytes, six BLOCKS records announcing 204
+blocks) is now rejected: "Unexpected total number of blocks" -/
+example : blocksWitness.length = 152 ∧ (readBuild blocksWitness).errKind? = some .blockCount :=
+  ⟨blocksWitness_length, blocksWitness_rejected⟩
 
 end Grcov.Props.C14
